@@ -108,7 +108,7 @@ CHECKS["C09"] = dict(
         "for all reference graphs with acyclic by-value containment, cyclic impl includes included), C09_cpp_decl_names_declared; includes and forward "
         "declarations of the generated .d.hpp / .hpp files are compared with the model in Coq.",
    note="Partial: the grammars of C/C++/JS/Rust are not modelled (the theorem is about declaration order under include guards, the compilers "
-        "decide everything else). Two recorded findings (known_findings.txt): keyword-escape collision, parameter named `this`.",
+        "decide everything else). Three recorded findings (known_findings.txt): keyword-escape collision, parameter named `this`, C++ include-guard collision (Headers/Guard.v: C09_cpp_guard_injective_on_clean_names / _refuted).",
    design="§5 C09")
 CHECKS["C14"] = dict(
    text="Partial. Collect/Model.v transcribes how Module::from_syn / File fold items into name-keyed BTreeMaps; C14_collect_lookup, "
